@@ -52,7 +52,7 @@ theorem mem_dequeue {s : State} {id : PoolId} {h : Int} {e : Int × PoolId} :
 /-- after the destroying `updatePool` and the zeroing of the rules, `Core` holds again and
 the pool is out of the queue -/
 theorem core_refunded {s s1 : State} {id : PoolId} {p p1 : Pool}
-    (hc : Core s) (hp : getPool s id = some p)
+    (hc : Core s) (hp : getPool s id = some p) (hact : C06.active s id p = true)
     (hu : updatePool (dequeue s id p.endH) id p 0 true = (s1, .ok p1)) :
     Core (zeroed s1 id p1) ∧
     (∀ d, gap (zeroed s1 id p1) d = gap s d + (C05.remainingIn d p1.rules : Int)) ∧
@@ -78,7 +78,7 @@ theorem core_refunded {s s1 : State} {id : PoolId} {p p1 : Pool}
   have hh : (zeroed s1 id p1).height = s.height := ok.height
   have hf : (zeroed s1 id p1).farmers = s.farmers := ok.farmers
   have w1 := updOk_wf ok hw
-  refine ⟨⟨by rw [hh]; exact hc.hnn, ?_, ?_, ?_, ?_, ?_, ?_⟩, ?_, hq, hh, hf, hcre, gself, hend, gother⟩
+  refine ⟨⟨by rw [hh]; exact hc.hnn, ?_, ?_, ?_, ?_, ?_, ?_, ?_⟩, ?_, hq, hh, hf, hcre, gself, hend, gother⟩
   · refine poolsAll_set hc.wf hpools ⟨?_, ?_, ?_, ?_, ?_, w1.user⟩
     · intro e; apply w1.rulesNe
       have := congrArg List.length e
@@ -157,6 +157,53 @@ theorem core_refunded {s s1 : State} {id : PoolId} {p p1 : Pool}
     by_cases e : id = i
     · subst e; exact ⟨_, gself⟩
     · exact ⟨p2, by rw [gother i e]; exact hp2⟩
+  · -- ghost: the refunded pool is booked exactly once
+    have hinact : ∀ h0, (h0, id) ∉ (zeroed s1 id p1).queue := by
+      intro h0 hm
+      rw [hq, mem_dequeue] at hm
+      obtain ⟨p3, hp3, he3, _⟩ := hc.queue.1 _ _ hm.1
+      rw [hp] at hp3; cases hp3
+      exact hm.2 (by rw [he3])
+    intro i p2 hp2 r' hr'
+    by_cases e : id = i
+    · subst e
+      rw [gself] at hp2; cases hp2
+      have hr'' : r' ∈ zeroRules p1.rules := hr'
+      unfold zeroRules at hr''
+      simp only [List.mem_map] at hr''
+      obtain ⟨r1, hr1, e1⟩ := hr''
+      obtain ⟨r, hr, _, hor⟩ := updOk_rule_origin ok r1 hr1
+      have g0 := hc.ghost id p hp r hr
+      have hn0 := (ghost_active (hc.ghost id p hp) hact r hr)
+      -- the rule before zeroing
+      have g1 : C06.RuleConserved r1 ∧ r1.nRefund = 0 ∧ r1.refunded = 0 := by
+        rcases hor with e2 | e2
+        · rw [e2]; exact ⟨g0.1, hn0.1, hn0.2⟩
+        · obtain ⟨_, htot, _, hrem, hrel, hrf, hnr, _⟩ := stepped_facts e2
+          have c := g0.1
+          unfold C06.RuleConserved at c ⊢
+          exact ⟨by omega, by rw [hnr]; exact hn0.1, by rw [hrf]; exact hn0.2⟩
+      rw [← e1]
+      obtain ⟨c1, n1, f1⟩ := g1
+      unfold C06.RuleConserved at c1
+      refine ⟨by unfold C06.RuleConserved; simp only; omega, by simp only; omega, ?_, by simp only; omega⟩
+      intro _
+      refine ⟨rfl, ?_, by show p1.endH ≤ (zeroed s1 id p1).height; rw [hh, hend]⟩
+      unfold C06.active
+      cases hcn : (zeroed s1 id p1).queue.contains (p1.endH, id) with
+      | false => rfl
+      | true => exact absurd (by simpa using hcn) (hinact p1.endH)
+    · rw [gother i e] at hp2
+      refine (hc.ghost i p2 hp2 r' hr').transfer ?_ (by rw [hh]; exact fun h => h)
+      unfold C06.active
+      intro hf0
+      cases hcn : (zeroed s1 id p1).queue.contains (p2.endH, i) with
+      | false => rfl
+      | true =>
+        have hm : (p2.endH, i) ∈ (zeroed s1 id p1).queue := by simpa using hcn
+        rw [hq, mem_dequeue] at hm
+        have : s.queue.contains (p2.endH, i) = true := by simpa using hm.1
+        rw [this] at hf0; cases hf0
   · intro d
     have g1 : gap s1 d = gap s d := by
       have := gap_updOk ok hp0 d
@@ -173,6 +220,7 @@ theorem core_refunded {s s1 : State} {id : PoolId} {p p1 : Pool}
 /-- a `Refund` that did not fail half-way (it paid, or found nothing left to pay) keeps the
 bundle -/
 theorem inv_refund {s s' : State} {id : PoolId} {p : Pool} (hi : Inv s) (hp : getPool s id = some p)
+    (hact : C06.active s id p = true)
     (h : refund s id p = (s', none) ∨ refund s id p = (s', some (.reject "no remaining reward"))) :
     Inv s' ∧ s'.height = s.height ∧ s'.queue = (dequeue s id p.endH).queue ∧
     (∀ id2, id ≠ id2 → getPool s' id2 = getPool s id2) ∧
@@ -246,7 +294,7 @@ theorem inv_refund {s s' : State} {id : PoolId} {p : Pool} (hi : Inv s) (hp : ge
               · exact hfin _ _ _ hc
         · exact hfin _ _ _ hc
       exact this _ hu
-  · obtain ⟨c1, hg1, hq1, hh1, hf1, hcre, gself, hend, gother⟩ := core_refunded hi.core hp hu
+  · obtain ⟨c1, hg1, hq1, hh1, hf1, hcre, gself, hend, gother⟩ := core_refunded hi.core hp hact hu
     have hgap0 := (moduleAccount_iff s).mp hi.modacc
     have hz0 : ∀ r ∈ ({ p1 with rules := zeroRules p1.rules } : Pool).rules, r.remaining = 0 ∧ r.nRefund ≥ 1 := by
       intro r hr
@@ -301,8 +349,23 @@ theorem inv_refund {s s' : State} {id : PoolId} {p : Pool} (hi : Inv s) (hp : ge
         rw [gap_send_out hcu.1 hs d, hg1 d, hgap0 d, sumOf_refundCoins]; omega
       · intro id2 e; unfold getPool; rw [bo.pools]; exact gother id2 e
 
+/-- a pool that is not expired is active and has not passed its end height -/
+theorem active_of_not_expired {s : State} {id : PoolId} {p : Pool} (hc : Core s) (hp : getPool s id = some p)
+    (hexp : expired s id p = false) : C06.active s id p = true ∧ s.height ≤ p.endH := by
+  unfold expired at hexp
+  split at hexp
+  · cases hexp
+  · rename_i hgt
+    split at hexp
+    · rename_i heq
+      exact ⟨by unfold C06.active; simpa using hexp, by omega⟩
+    · rename_i hne
+      have hlt : s.height < p.endH := by omega
+      have := hc.queue.2.1 id p hp hlt
+      exact ⟨by unfold C06.active; simpa using this, by omega⟩
+
 theorem inv_destroyPool {s s' : State} {sender id} (hi : Inv s) (h : stepDestroyPool s sender id = .ok s') : Inv s' := by
-  obtain ⟨p, hp, _, _, _, hr⟩ := stepDestroyPool_ok h
-  exact (inv_refund hi hp (Or.inl hr)).1
+  obtain ⟨p, hp, _, _, hexp, hr⟩ := stepDestroyPool_ok h
+  exact (inv_refund hi hp (active_of_not_expired hi.core hp hexp).1 (Or.inl hr)).1
 
 end Irismod.Proofs.Farm
